@@ -75,15 +75,8 @@ example :
       [.set [1, 3], .set [1, 2, 3], .set [1, 2, 3], .map [(1, 2)], .map [(1, 3)], .map [(1, 2), (5, 1)], .map [(1, 2)]] := by
   decide
 
-/-- the source text of the functions the model transcribes is what it was when the model was written
-    (regenerated from the repository on every run) -/
-theorem c15_source_facts :
-    Facts.intSetInsert = "{iflen(i.data)==0{returnIntSet{[]int{val}}}i2:=IntSet{make([]int,len(i.data),len(i.data)+1)}copy(i2.data,i.data)i2.insertValue(val)returni2}" ∧
-    Facts.intSetInsertValue = "{index:=sort.SearchInts(i.data,val)ifindex<len(i.data)&&i.data[index]==val{return}i.data=append(i.data,0)copy(i.data[index+1:],i.data[index:])i.data[index]=val}" ∧
-    Facts.intSetUnion = "{iflen(i2.data)==0{returni}elseiflen(i.data)==0{returni2}i3:=IntSet{make([]int,0,len(i.data)+len(i2.data))}varn1,n2intforn1<len(i.data)||n2<len(i2.data){ifn2>=len(i2.data)||n1<len(i.data)&&i.data[n1]<i2.data[n2]{i3.data=append(i3.data,i.data[n1])n1++}elseifn1>=len(i.data)||n2<len(i2.data)&&i2.data[n2]<i.data[n1]{i3.data=append(i3.data,i2.data[n2])n2++}else{i3.data=append(i3.data,i.data[n1])n1++n2++}}returni3}" ∧
-    Facts.intMapInc = "{i2:=i.clone()if_,ok:=i2.data[val];!ok{i2.data[val]=1}else{i2.data[val]++}returni2}" ∧
-    Facts.intMapFilter = "{i2:=NewIntMap(nil)keys.Each(func(keyint){ifv,ok:=i.data[key];ok{i2.data[key]=v}})returni2}" ∧
-    Facts.intMapClone = "{i2:=IntMap{make(map[int]int,len(i.data))}fork,v:=rangei.data{i2.data[k]=v}returni2}" :=
-  ⟨rfl, rfl, rfl, rfl, rfl, rfl⟩
+/- (the body texts of IntSet.Insert / insertValue / Union and IntMap.Inc / Filter / clone, formerly pinned here, are subsumed: the
+   whole data package is translated from the source on every run and proved equal to the model - Props/C15P.lean, built and
+   audited by this property's check) -/
 
 end PV.Data
